@@ -48,6 +48,17 @@ def gen_counting_child_case(rng):
 
 
 def gen_case(rng):
+    spec = _gen_case(rng)
+    if rng.random() < 0.3:
+        # definitions pre-configured by their author (whole units on / off): the Backtest's own setting applies to the whole tree,
+        # nested and stand-alone alike
+        for kid in spec["tree"]["kids"]:
+            if rng.random() < 0.7:
+                kid["preset_integer"] = rng.random() < 0.5
+    return spec
+
+
+def _gen_case(rng):
     spec = R.gen_run_spec(rng, nested=True, crash=rng.random() < 0.3, calendar_children=rng.random() < 0.6)
     if rng.random() < 0.2:
         # leveraged child: its shadow copy can go bankrupt
@@ -72,6 +83,8 @@ def gen_case(rng):
 def standalone_spec(spec, kid):
     s = copy.deepcopy(spec)
     s["tree"] = {"name": kid["name"], "tickers": kid["tickers"], "kids": copy.deepcopy(kid.get("kids", [])), "stack": kid["stack"]}
+    if kid.get("preset_integer") is not None:
+        s["tree"]["preset_integer"] = kid["preset_integer"]
     s["capital"] = 1000000.0
     return s
 
